@@ -112,7 +112,7 @@ structure VarSpec where
       back: "assignment mismatch: 2 variables but f returns 0 values") -/
   calleeLater : Bool := false
   /-- only for `var v, ok = m[k]` and `var v, ok = <-c` (package-level comma-ok declarations,
-      accepted since 2d7bcd6): the map / channel variable is declared later in the source than this
+      accepted since e4c80e1): the map / channel variable is declared later in the source than this
       specification. `compDefineX`, called by `gta` when it meets the specification, needs the type
       of that operand at once — only a *call* source is retried — and stops the interpreter with a Go
       panic ("incomplete type", "nil type"): finding F15-9. -/
